@@ -98,6 +98,8 @@ def child_run(argv, mode, k, out_path):
             state["calls"] += 1
             if mode == "error" and i == k:
                 raise sqlite3.OperationalError("injected fault at execute call %d" % k)
+            if mode == "interrupt" and i == k:
+                raise KeyboardInterrupt()          # the user presses Ctrl-C while the command is writing
 
         def execute(self, *a, **kw):
             self._maybe_fail()
@@ -251,7 +253,8 @@ def run(ctx):
             # ---- (ii) fault enumeration against the model's prediction
             ob2 = "file content after a fault at every statement = model crashAfter (old before the commit point, new after)"
             commit_idx = max([i for i, s in enumerate(t["stmts"]) if classify_stmt(s) == "c"] + [-1])
-            faults = [("error", k) for k in range(n_calls)] + [("kill", k) for k in range(n_traced + 1)]
+            faults = ([("error", k) for k in range(n_calls)] + [("kill", k) for k in range(n_traced + 1)]
+                      + [("interrupt", k) for k in range(n_calls)])
             if ctx.tier == "quick" and len(faults) > 140:
                 keep = set(range(0, 6)) | set(range(n_traced - 6, n_traced + 1))
                 faults = [f for f in faults if f[1] in keep or f[1] % max(1, len(faults) // 100) == 0]
@@ -281,11 +284,12 @@ def run(ctx):
                     continue
                 got = cli.dump(work)
                 wrote_before = any(classify_stmt(s) == "w" for s in t["stmts"][:k]) if mode == "kill" else k > 0
+                # (error and interrupt: an exception -- ordinary or Ctrl-C -- raised at the k-th execute call)
                 ctx.case((d_i, st, mode, k), wrote_before)
                 ctx.count("faults_" + mode)
                 if mode == "kill" and single_after_commit(t["stmts"], k, commit_idx):
                     expect = "new"
-                elif mode == "error":
+                elif mode in ("error", "interrupt"):
                     expect = "old"
                 else:
                     expect = "old"
